@@ -1,0 +1,44 @@
+//go:build verif
+
+// Contracts on the cloud-provider interface as the controller uses it. Compiled only
+// with -tags verif; nothing but //@ specification comments. Read by /verif/engine (govc).
+
+package cloudprovider
+
+//@ import v1 "k8s.io/api/core/v1"
+
+// What a node group reports (its cached view, refreshed once per scan).
+//@ spec cpID(n iface) string
+//@ spec tgt(id string) int
+//@ spec cmax(id string) int
+//@ spec cmin(id string) int
+
+//@ iface cloudprovider.CloudProvider.GetNodeGroup(c, id) (ng, ok)
+//@   pure
+//@   ensures ok ==> ng != nil && cpID(ng) == id
+//@ iface cloudprovider.NodeGroup.TargetSize(n) (r)
+//@   pure
+//@   ensures r == tgt(cpID(n))
+//@ iface cloudprovider.NodeGroup.MaxSize(n) (r)
+//@   pure
+//@   ensures r == cmax(cpID(n))
+//@ iface cloudprovider.NodeGroup.MinSize(n) (r)
+//@   pure
+//@   ensures r == cmin(cpID(n))
+
+// IncreaseSize(delta): one C_INCREASE event carrying the group id and delta.
+//@ iface cloudprovider.NodeGroup.IncreaseSize(n, delta) (err)
+//@   modifies Jlen, Jkind, Jname, Jnum, Jok
+//@   ensures Jlen == old(Jlen) + 1
+//@   ensures Jkind == old(Jkind)[old(Jlen) := C_INCREASE] && Jname == old(Jname)[old(Jlen) := cpID(n)] && Jnum == old(Jnum)[old(Jlen) := delta] && Jok == old(Jok)[old(Jlen) := err == nil]
+
+// DeleteNodes(nodes...): one C_DELNODE event per node asked for, in order.
+//@ iface cloudprovider.NodeGroup.DeleteNodes(n, nodes) (err)
+//@   modifies Jlen, Jkind, Jname, Jnode, Jok
+//@   ensures Jlen == old(Jlen) + len(nodes)
+//@   ensures forall i :: 0 <= i && i < len(nodes) ==> Jkind[old(Jlen) + i] == C_DELNODE && Jnode[old(Jlen) + i] == nodes[i] && Jname[old(Jlen) + i] == nodes[i].Name && Jok[old(Jlen) + i] == (err == nil)
+//@   ensures forall k :: 0 <= k && k < old(Jlen) ==> Jkind[k] == old(Jkind)[k] && Jname[k] == old(Jname)[k] && Jok[k] == old(Jok)[k] && Jnode[k] == old(Jnode)[k]
+//@   ensures isNotInGroup(err) ==> err != nil
+
+//@ spec isNotInGroup(e error) bool = typeis(e, "*NodeNotInNodeGroup")
+//@ const C_DELNODE = 4
